@@ -175,7 +175,7 @@ func handleHelloResume(
 				return 0, &alert.Alert{Level: alert.Fatal, Description: alert.InternalError}, err
 			}
 
-			clientRandom := state.LocalRandom.MarshalFixed()
+			clientRandom := state.RemoteRandom.MarshalFixed()
 			cfg.WriteKeyLog(keyLogLabel, clientRandom[:], state.MasterSecret)
 
 			return Flight4b, nil, nil
